@@ -4,7 +4,17 @@ package build
 
 import (
 	gobuild "go/build"
+	"net/http"
 )
+
+// VerifC18Embedded builds the VIRTUAL context that overlayCtx / gopherjsCtx build
+// (the real embeddedCtx), over the directory dir instead of the embedded natives:
+// dir/src/<import path>/... is served as $GOROOT/src/<import path>/...
+func VerifC18Embedded(dir string, tags []string) XContext {
+	e := DefaultEnv()
+	e.BuildTags = tags
+	return embeddedCtx(&withPrefix{fs: http.Dir(dir), prefix: e.GOROOT}, e)
+}
 
 // VerifC18Contexts exposes the go/build contexts hidden inside the XContext
 // returned by the real NewBuildContext (primary = real file system, secondary
